@@ -15,6 +15,14 @@ from pyvc.engine import Contract, Unsupported, PyRaise
 from .m_models_fields import URL, ORIGIN, REQUEST, RESPONSE, PROXY, BYTESTREAM, M, origin_fields_equal
 
 rfc_scheme = z3.Function("rfc_scheme", BytesS, BytesS)  # lower-cased scheme
+def authority_host(host):
+    """RFC 3986 host as it appears inside an authority / Host header: a literal containing ':' (only an
+    IPv6 / IPvFuture literal can) is enclosed in brackets unless it already is; URL.host itself holds it
+    without brackets (urlsplit().hostname)"""
+    bare = z3.And(z3.Contains(host, bytes_lit(b":")), z3.Not(z3.PrefixOf(bytes_lit(b"["), host)))
+    return z3.If(bare, z3.Concat(bytes_lit(b"["), host, bytes_lit(b"]")), host)
+
+
 rfc_host = z3.Function("rfc_host", BytesS, BytesS)  # lower-cased host, brackets of IP-literals removed, b"" if none
 rfc_has_port = z3.Function("rfc_has_port", BytesS, BoolS)
 rfc_port = z3.Function("rfc_port", BytesS, IntS)
@@ -232,6 +240,7 @@ def register(reg):
             port = c.new(url, "URL.port")
             known, dport = default_port_of(scheme, HOST_HEADER_DEFAULTS)
             default = z3.Or(port.none, z3.And(known, port.val.t == dport))
+            host = authority_host(host)  # host_wf (from the property): IP-literals are bracketed in an authority
             hostval = z3.If(default, host, z3.Concat(host, bytes_lit(b":"), dec_bytes(port.val.t)))
             has_host = has_key(h, b"host", "host")
             has_cl = has_key(h, b"content-length", "cl")
@@ -426,7 +435,7 @@ def register(reg):
         def spec(self, c):
             s = c.self
             port = c.new(s, "URL.port")
-            base = z3.Concat(F(c, s, "URL.scheme"), bytes_lit(b"://"), F(c, s, "URL.host"))
+            base = z3.Concat(F(c, s, "URL.scheme"), bytes_lit(b"://"), authority_host(F(c, s, "URL.host")))
             return z3.If(port.none, z3.Concat(base, F(c, s, "URL.target")),
                          z3.Concat(base, bytes_lit(b":"), dec_bytes(port.val.t), F(c, s, "URL.target")))
 
